@@ -6,11 +6,12 @@ CONSTANTS
   MaxPre = 2
   T = 2  QT = 5  FoCap = 20
   Ticks = FALSE  FwdStream = FALSE
-  DebitFirst = TRUE  CheckMatch = TRUE  StopAtDeadline = TRUE
+  PreWorks <- AllWorks
+  DebitFirst = TRUE  CheckMatch = TRUE  StopAtDeadline = TRUE  LatchGuard = TRUE  StampFirst = TRUE
 SPECIFICATION TraceSpec
 INVARIANTS AtMostOneReply InTime WalkOnce SendBound NoMismatchRelayed DebitBeforeSend WithinBudget WorkFailIffLatched
-  GuardRespected FailoverOnlyOnServfail FallbackUntouchedUnlessEngaged
-  ObsAtMostOneReply ObsDebitFirst ObsWithinBudget
+  GuardRespected FailoverOnlyOnServfail FallbackUntouchedUnlessEngaged OverBudgetReplyIsWorkFail ReplyEchoesClientId
+  ObsAtMostOneReply ObsDebitFirst ObsWithinBudget ObsOverBudgetServfail
 CONSTRAINT HighWater
 POSTCONDITION TraceAccepted
 CHECK_DEADLOCK FALSE
